@@ -348,6 +348,9 @@ class ListNode(SequenceNode[Tuple[T, ...]], Generic[T]):
         # A list can be the key of a mapping (built from a tuple), and the items of a mapping are sorted
         if isinstance(other, ListNode):
             return self._children < other._children
+        elif isinstance(other, NullNode):
+            # consistent with NullNode.__lt__: null sorts before everything else
+            return False
         elif isinstance(other, LeafNode):
             other = other.object
         return LeafNode._mixed_type_sort_key(self) < LeafNode._mixed_type_sort_key(other)
